@@ -106,6 +106,7 @@ def view(v):
 
 class C14(Prop):
     id = 'C14'
+    extracted = True      # arithmetic kernels regenerated from the current source (harness/extract.py, Extracted/Equiv*.lean)
     quick_cases = 2200
     thorough_cases = 30000
     quick_budget_s = 70
